@@ -334,6 +334,288 @@ theorem overlap_layer_exact (ce : List (List Nat)) (cells : List Nat)
   simp only [mem_overlapCells' hcells]
   exact mem_layer (ovInv_layers ce cells k)
 
+/-! ## (a') the lower-dimensional grids of `faces=True`: sign rule and edge construction -/
+
+/-- The marking used by both variants (`np.unique(indices, return_index=True)`): position `p` of the
+    flattened index array is "first" iff its value does not occur at an earlier position. -/
+theorem first_occurrence_spec (l : List Nat) (p : Nat) (hp : p < l.length) :
+    (firstOccAux [] l).getD p false = true ↔ l.getD p 0 ∉ l.take p := by
+  rw [firstOccAux_spec l [] p hp]; simp
+
+/-- Sign rule of the extracted lower-dimensional grid.  2-d parent (cells = chosen faces, faces = nodes):
+    the first cell touching a node gets +1, all later ones −1; 3-d parent (faces = edges): first −1, later
+    +1.  Hence the signed row sum of a face of the new grid shared by `k ≥ 1` cells is `2 − k` (resp.
+    `k − 2`): it vanishes exactly for `k = 2` (closedness at an interior node/edge of a manifold piece),
+    is ±1 on the boundary (`k = 1`) and at a T-junction (`k = 3`); an accepted result never has `k ≥ 4`
+    (the `Grid` constructor refuses it). -/
+theorem extract_faces_sign_rule (fn : List (List Nat)) (f : List Nat) (r : FaceSub) :
+    (extractFaces2 fn f = .ok r →
+      r.cfSigns.map List.length = r.cfFaces.map List.length ∧
+      r.cfSigns.flatten = (firstOccAux [] r.cfFaces.flatten).map (fun t => if t then (1 : Int) else -1) ∧
+      (∀ v, rowSum r.cfFaces r.cfSigns v
+          = if r.cfFaces.flatten.count v = 0 then 0 else 2 - (r.cfFaces.flatten.count v : Int)) ∧
+      (∀ v, r.cfFaces.flatten.count v ≤ 3) ∧
+      (∀ v, r.cfFaces.flatten.count v = 2 → rowSum r.cfFaces r.cfSigns v = 0)) ∧
+    (extractFaces3 fn f = .ok r →
+      r.cfSigns.map List.length = r.cfFaces.map List.length ∧
+      r.cfSigns.flatten = (firstOccAux [] r.cfFaces.flatten).map (fun t => if t then (-1 : Int) else 1) ∧
+      (∀ v, rowSum r.cfFaces r.cfSigns v
+          = if r.cfFaces.flatten.count v = 0 then 0 else (r.cfFaces.flatten.count v : Int) - 2) ∧
+      (∀ v, r.cfFaces.flatten.count v ≤ 3) ∧
+      (∀ v, r.cfFaces.flatten.count v = 2 → rowSum r.cfFaces r.cfSigns v = 0)) := by
+  constructor
+  · intro h
+    unfold extractFaces2 at h
+    simp only at h
+    split at h
+    · cases h
+    · split at h
+      · cases h
+      · rename_i _ hbad
+        injection h with h
+        subst h
+        simp only
+        have hsum : ∀ v, rowSum (extractSub fn f).1 (signCols 1 (-1) [] (extractSub fn f).1) v
+            = if (extractSub fn f).1.flatten.count v = 0 then 0
+              else 2 - ((extractSub fn f).1.flatten.count v : Int) := by
+          intro v
+          rw [rowSum_signCols 1 (-1) (Or.inr rfl)]
+          split <;> omega
+        refine ⟨signCols_shape _ _ _ _, flatten_signCols _ _ _ _, hsum, ?_, ?_⟩
+        · intro v
+          by_cases hv : v < (extractSub fn f).2.length
+          · have := not_orientationBad (by simpa using hbad) v hv
+            rw [hsum v] at this
+            split at this <;> omega
+          · have : (extractSub fn f).1.flatten.count v = 0 := by
+              rw [List.count_eq_zero]
+              intro hm
+              obtain ⟨col, hcol, hvc⟩ := List.mem_flatten.mp hm
+              exact hv ((extractSub_spec fn f).2.2.2 col hcol v hvc)
+            omega
+        · intro v hv2
+          rw [hsum v, hv2]; simp
+  · intro h
+    unfold extractFaces3 at h
+    simp only at h
+    split at h
+    · cases h
+    · split at h
+      · cases h
+      · rename_i _ hbad
+        injection h with h
+        subst h
+        simp only
+        generalize hcf : List.map _ (List.map cyclicEdges (extractSub fn f).1) = cf at hbad ⊢
+        have hsum : ∀ v, rowSum cf (signCols (-1) 1 [] cf) v
+            = if cf.flatten.count v = 0 then 0 else (cf.flatten.count v : Int) - 2 := by
+          intro v
+          rw [rowSum_signCols (-1) 1 (Or.inl rfl)]
+          split <;> omega
+        refine ⟨signCols_shape _ _ _ _, flatten_signCols _ _ _ _, hsum, ?_, ?_⟩
+        · intro v
+          generalize hu : usort _ = ukeys at hbad hcf
+          by_cases hv : v < ukeys.length
+          · have := not_orientationBad (by simpa using hbad) v hv
+            rw [hsum v] at this
+            split at this <;> omega
+          · have : cf.flatten.count v = 0 := by
+              rw [List.count_eq_zero]
+              intro hm
+              obtain ⟨col, hcol, hvc⟩ := List.mem_flatten.mp hm
+              rw [← hcf] at hcol
+              obtain ⟨ecol, hecol, rfl⟩ := List.mem_map.mp hcol
+              obtain ⟨e, he, rfl⟩ := List.mem_map.mp hvc
+              apply hv
+              apply List.idxOf_lt_length_iff.mpr
+              rw [← hu, mem_usort]
+              exact List.mem_map.mpr ⟨e, List.mem_flatten.mpr ⟨ecol, hecol, he⟩, rfl⟩
+            omega
+        · intro v hv2
+          rw [hsum v, hv2]; simp
+
+/-- key of a face `[a, b]` of the extracted 2-d grid -/
+def faceKey (m : Nat) (face : List Nat) : Nat := edgeKey m (face.getD 0 0, face.getD 1 0)
+
+/-- Edge construction of `_extract_cells_from_faces_3d`.  With `cn` the local cell→node lists of the chosen
+    faces and `ecols` their cyclic consecutive node pairs:
+ * the faces of the new grid are pairwise distinct undirected edges, sorted by (smaller node, larger node)
+   (their keys are strictly increasing; the key determines the unordered pair, `edge_key_injective`);
+ * every face is an oriented edge `[a, b]` of one of the cells;
+ * the `t`-th face of cell `j` is the undirected edge of the `t`-th consecutive node pair of that cell;
+ * in parent numbering the consecutive node pairs of cell `j` are those of the parent face `f[j]`
+   (each extracted cell is the parent face, with its boundary);
+ * all local nodes are below the radix `m`, so keys identify undirected edges. -/
+theorem extract_faces3_edges (fn : List (List Nat)) (f : List Nat) (r : FaceSub)
+    (h : extractFaces3 fn f = .ok r) :
+    (r.fn.map (faceKey (r.nodeMap.length + 1))).Pairwise (· < ·) ∧
+    (∀ face ∈ r.fn, ∃ e ∈ ((extractSub fn f).1.map cyclicEdges).flatten, face = [e.1, e.2]) ∧
+    r.cfFaces.map (fun col => col.map (fun i => faceKey (r.nodeMap.length + 1) (r.fn.getD i [])))
+      = ((extractSub fn f).1.map cyclicEdges).map (fun col => col.map (edgeKey (r.nodeMap.length + 1))) ∧
+    ((extractSub fn f).1.map cyclicEdges).map
+        (fun col => col.map (fun e => (r.nodeMap.getD e.1 0, r.nodeMap.getD e.2 0)))
+      = f.map (fun x => cyclicEdges (fn.getD x [])) ∧
+    (∀ e ∈ ((extractSub fn f).1.map cyclicEdges).flatten,
+      e.1 < r.nodeMap.length + 1 ∧ e.2 < r.nodeMap.length + 1) := by
+  unfold extractFaces3 at h
+  simp only at h
+  split at h
+  · cases h
+  · split at h
+    · cases h
+    · injection h with h
+      subst h
+      simp only
+      generalize hm : (extractSub fn f).2.length + 1 = m
+      generalize hes : ((extractSub fn f).1.map cyclicEdges).flatten = es
+      -- key of the face stored for a key `k` of the edge list is `k` itself
+      have hkey : ∀ k ∈ es.map (edgeKey m),
+          faceKey m [(es.getD ((es.map (edgeKey m)).idxOf k) (0, 0)).1,
+                     (es.getD ((es.map (edgeKey m)).idxOf k) (0, 0)).2] = k := by
+        intro k hk
+        have := getD_idxOf_map (edgeKey m) (0, 0) es hk
+        simpa [faceKey] using this
+      refine ⟨?_, ?_, ?_, ?_, ?_⟩
+      · rw [List.map_map]
+        have : (usort (es.map (edgeKey m))).map
+            (faceKey m ∘ fun k => [(es.getD ((es.map (edgeKey m)).idxOf k) (0, 0)).1,
+              (es.getD ((es.map (edgeKey m)).idxOf k) (0, 0)).2]) = usort (es.map (edgeKey m)) := by
+          conv => rhs; rw [← List.map_id (usort (es.map (edgeKey m)))]
+          apply List.map_congr_left
+          intro k hk
+          exact hkey k (mem_usort.mp hk)
+        rw [this]
+        exact pairwise_usort _
+      · intro face hface
+        obtain ⟨k, hk, rfl⟩ := List.mem_map.mp hface
+        have hk' := mem_usort.mp hk
+        have hlt : (es.map (edgeKey m)).idxOf k < es.length := by
+          simpa using (List.idxOf_lt_length_iff.mpr hk')
+        refine ⟨es.getD ((es.map (edgeKey m)).idxOf k) (0, 0), ?_, rfl⟩
+        rw [List.getD_eq_getElem?_getD, List.getElem?_eq_getElem hlt]
+        exact List.getElem_mem hlt
+      · rw [List.map_map]
+        apply List.map_congr_left
+        intro ecol hecol
+        simp only [Function.comp, List.map_map]
+        apply List.map_congr_left
+        intro e he
+        simp only [Function.comp]
+        have hmem : edgeKey m e ∈ es.map (edgeKey m) := by
+          rw [← hes]
+          exact List.mem_map.mpr ⟨e, List.mem_flatten.mpr ⟨ecol, hecol, he⟩, rfl⟩
+        have hidx : (usort (es.map (edgeKey m))).idxOf (edgeKey m e) < (usort (es.map (edgeKey m))).length :=
+          List.idxOf_lt_length_iff.mpr (mem_usort.mpr hmem)
+        rw [List.getD_eq_getElem?_getD, List.getElem?_map, List.getElem?_eq_getElem hidx]
+        simp only [Option.map_some, Option.getD_some, List.getElem_idxOf hidx]
+        exact hkey _ hmem
+      · rw [List.map_map]
+        have h3 := (extractSub_spec fn f).2.2.1
+        have hr : f.map (fun x => cyclicEdges (fn.getD x []))
+            = (f.map (fun i => fn.getD i [])).map cyclicEdges := by rw [List.map_map]; rfl
+        rw [hr, ← h3, List.map_map]
+        apply List.map_congr_left
+        intro col _
+        simp only [Function.comp]
+        exact cyclicEdges_map (fun j => (extractSub fn f).2.getD j 0) col
+      · intro e he
+        rw [← hm]
+        rw [← hes] at he
+        obtain ⟨ecol, hecol, hee⟩ := List.mem_flatten.mp he
+        obtain ⟨col, hcol, rfl⟩ := List.mem_map.mp hecol
+        have := mem_cyclicEdges hee
+        have h4 := (extractSub_spec fn f).2.2.2 col hcol
+        exact ⟨Nat.lt_succ_of_lt (h4 _ this.1), Nat.lt_succ_of_lt (h4 _ this.2)⟩
+
+/-- equal keys ⇒ same undirected edge (for nodes below the radix) -/
+theorem edge_key_injective (m : Nat) (e e' : Nat × Nat) (h1 : e.1 < m) (h2 : e.2 < m)
+    (h1' : e'.1 < m) (h2' : e'.2 < m) (h : edgeKey m e = edgeKey m e') :
+    (e.1 = e'.1 ∧ e.2 = e'.2) ∨ (e.1 = e'.2 ∧ e.2 = e'.1) :=
+  edgeKey_inj h1 h2 h1' h2' h
+
+/-! ## (b') `determine_coarse_dimensions` -/
+
+/-- The integer n-th root used by the model is the exact one: for `k, q, p ≥ 1`,
+    `⌊s⌋^k·q ≤ p < (⌊s⌋+1)^k·q` and `(⌈s⌉−1)^k·q < p ≤ ⌈s⌉^k·q`, `⌈s⌉ ≥ 1`, where `s = (p/q)^(1/k)`
+    (`p` = clamped target, `q` = product of the dimensions already fixed, `k` = dimensions left);
+    and it satisfies the only two facts the range theorem needs (`RootOk`: `⌊s⌋ ≤ ⌈s⌉`, `1 ≤ ⌈s⌉`). -/
+theorem exact_root_spec :
+    RootOk exactRoot ∧
+    ∀ k p q, 1 ≤ k → 1 ≤ q → 1 ≤ p →
+      (rootFloor k p q ^ k * q ≤ p ∧ p < (rootFloor k p q + 1) ^ k * q) ∧
+      (p ≤ rootCeil k p q ^ k * q ∧ (rootCeil k p q - 1) ^ k * q < p ∧ 1 ≤ rootCeil k p q) :=
+  ⟨exactRoot_ok, fun _ _ _ hk hq hp => ⟨rootFloor_spec hk hq, rootCeil_spec hk hq hp⟩⟩
+
+/-- `determine_coarse_dimensions(target, fine)` — for ANY root oracle with `⌊s⌋ ≤ ⌈s⌉`, `1 ≤ ⌈s⌉` (so also for
+    the float roots of the real code whenever they are a floor/ceil pair of a positive number), any target
+    and any fine sizes `≥ 1`: the loop terminates without the "bug somewhere" ValueError, returns one coarse
+    size per axis with `1 ≤ coarse ≤ fine`, hence `1 ≤ Π coarse ≤ Π fine`.  This includes the code's quirks
+    (`np.any` on the index array of ceiling hits, the signed `dist`), which only affect how close to the
+    target the result is, never the range. -/
+theorem coarse_dimensions_in_range (root : Nat → Nat → Nat → Nat × Nat) (hroot : RootOk root)
+    (target : Nat) (fine : List Nat) (hf : ∀ f ∈ fine, 1 ≤ f) :
+    ∃ c, dcd root target fine = .ok c ∧ c.length = fine.length ∧ DimsOk fine c ∧
+      1 ≤ c.foldl (· * ·) 1 ∧ c.foldl (· * ·) 1 ≤ fine.foldl (· * ·) 1 := by
+  obtain ⟨c, hc, hl, hz⟩ := dcd_ok root hroot target fine hf
+  obtain ⟨b1, b2⟩ := prodL_bounds fine c 1 1 hl hz (Nat.le_refl _) (Nat.le_refl _)
+  exact ⟨c, hc, hl, hz, b1, b2⟩
+
+/-- `partition_structured(g, num_part=n)` = `partition_structured(g, coarse_dims=determine_coarse_dimensions(n, fine))`
+    on a 1-, 2- or 3-d tensor grid: it answers, every cell gets exactly one id, ids lie in `[0, Π coarse)`,
+    every id is used, and there are at most as many parts as cells. -/
+theorem partition_structured_num_part (root : Nat → Nat → Nat → Nat × Nat) (hroot : RootOk root)
+    (target : Nat) (fine : List Nat) (hf : ∀ f ∈ fine, 1 ≤ f)
+    (hnd : 1 ≤ fine.length ∧ fine.length ≤ 3) :
+    ∃ c p, dcd root target fine = .ok c ∧ partitionStructured fine c = .ok p ∧
+      p.length = fine.foldl (· * ·) 1 ∧
+      (∀ x ∈ p, 0 ≤ x ∧ x < ((c.foldl (· * ·) 1 : Nat) : Int)) ∧
+      (∀ q : Nat, q < c.foldl (· * ·) 1 → (q : Int) ∈ p) ∧
+      c.foldl (· * ·) 1 ≤ fine.foldl (· * ·) 1 := by
+  obtain ⟨c, hc, hl, hd, _, hb⟩ := coarse_dimensions_in_range root hroot target fine hf
+  have hps : ∃ p, partitionStructured fine c = .ok p := by
+    rcases fine with _ | ⟨f0, _ | ⟨f1, _ | ⟨f2, _ | ⟨f3, fs⟩⟩⟩⟩
+    · simp at hnd
+    · rcases c with _ | ⟨c0, _ | ⟨c1, cs⟩⟩ <;> simp at hl
+      exact ⟨_, ps1 (hd (f0, c0) (by simp))⟩
+    · rcases c with _ | ⟨c0, _ | ⟨c1, _ | ⟨c2, cs⟩⟩⟩ <;> simp at hl
+      exact ⟨_, ps2 (hd (f0, c0) (by simp)) (hd (f1, c1) (by simp))⟩
+    · rcases c with _ | ⟨c0, _ | ⟨c1, _ | ⟨c2, _ | ⟨c3, cs⟩⟩⟩⟩ <;> simp at hl
+      exact ⟨_, ps3 (hd (f0, c0) (by simp)) (hd (f1, c1) (by simp)) (hd (f2, c2) (by simp))⟩
+    · simp at hnd
+  obtain ⟨p, hp⟩ := hps
+  obtain ⟨t1, t2⟩ := partition_structured_total fine c p hp hd
+  exact ⟨c, p, hc, hp, t1, partition_structured_in_range fine c p hp hd, t2, hb⟩
+
+/-! ## (b'') `partition_coordinates` (box search in exact arithmetic) -/
+
+/-- If every cell centre lies inside the node extent of the (mapped) grid on every active axis
+    (`lo ≤ cc < hi`, which holds for centres of non-degenerate cells) and every axis has at least one box,
+    then the search answers (the `assert partition.min() >= 0` holds), assigns every cell exactly one id,
+    the id lies in `[0, Π coarse_dims)`, and it is the number of the one box `[lo + k·dx, lo + (k+1)·dx)^d`
+    that contains the centre (no other box does, so the overwrite order of the loop is irrelevant). -/
+theorem partition_coordinates_total (axes : List Axis) (centers : List (List Rat))
+    (h : ∀ x ∈ centers, AllOk axes x) :
+    ∃ p, pcoord axes centers = .ok p ∧ p = centers.map (assignBox axes) ∧ p.length = centers.length ∧
+      (∀ v ∈ p, 0 ≤ v ∧ v < ((prodL (axes.map (·.c)) : Nat) : Int)) ∧
+      (∀ x ∈ centers, ∃ i : Nat, assignBox axes x = (i : Int) ∧ i < prodL (axes.map (·.c)) ∧
+        hitAll axes (unravel (axes.map (·.c)) i) x = true ∧
+        ∀ j, j < prodL (axes.map (·.c)) → hitAll axes (unravel (axes.map (·.c)) j) x = true → j = i) := by
+  have hrange : ∀ v ∈ centers.map (assignBox axes), 0 ≤ v ∧ v < ((prodL (axes.map (·.c)) : Nat) : Int) := by
+    intro v hv
+    obtain ⟨x, hx, rfl⟩ := List.mem_map.mp hv
+    obtain ⟨i, hi, hlt, _⟩ := assignBox_spec axes x (h x hx)
+    rw [hi]
+    omega
+  refine ⟨centers.map (assignBox axes), ?_, rfl, by simp, hrange, fun x hx => assignBox_spec axes x (h x hx)⟩
+  unfold pcoord
+  simp only
+  rw [if_neg]
+  intro hany
+  obtain ⟨v, hv, hneg⟩ := List.any_eq_true.mp hany
+  have := (hrange v hv).1
+  simp at hneg
+  omega
+
 /-! ## non-vacuity: concrete instances (regression inputs of the repaired defects F11/F12 among them) -/
 
 /-- 2×1 Cartesian grid: faces 0–2 vertical, 3–4 bottom, 5–6 top; nodes 0–2 bottom row, 3–5 top row -/
@@ -380,5 +662,29 @@ example : (overlap [[0, 1, 4, 5], [1, 2, 5, 6], [2, 3, 6, 7]] [1] 0).toOption = 
 /-- 4×1 grid, node criterion: one layer around cell 0 adds cell 1, two layers add cell 2 -/
 example : overlapCells [[0, 1, 5, 6], [1, 2, 6, 7], [2, 3, 7, 8], [3, 4, 8, 9]] [0] 1 = [0, 1] := by decide +kernel
 example : overlapCells [[0, 1, 5, 6], [1, 2, 6, 7], [2, 3, 7, 8], [3, 4, 8, 9]] [0] 2 = [0, 1, 2] := by decide +kernel
+
+/-- 3-d → 2-d: the two unit squares {0,1,4,3} and {1,2,5,4} (nodes of a 2×1 patch, given as two "faces") share
+    the edge {1,4}: 7 distinct edges, the shared one with signs −1 (first cell) and +1 (second cell) -/
+example : (extractFaces3 [[0, 1, 4, 3], [1, 2, 5, 4]] [0, 1]).toOption.map (fun r => (r.nodeMap, r.fn))
+    = some ([0, 1, 2, 3, 4, 5], [[0, 1], [3, 0], [1, 2], [1, 4], [2, 5], [4, 3], [5, 4]]) := by decide +kernel
+example : (extractFaces3 [[0, 1, 4, 3], [1, 2, 5, 4]] [0, 1]).toOption.map (fun r => (r.cfFaces, r.cfSigns))
+    = some ([[0, 3, 5, 1], [2, 4, 6, 3]], [[-1, -1, -1, -1], [-1, -1, -1, 1]]) := by decide +kernel
+
+/-- `determine_coarse_dimensions`: the observation (50, [2,5,5]) ↦ [2,4,4] (index-array `np.any`), a perfect
+    cube, a prime target, a target beyond the cell count -/
+example : (dcd exactRoot 50 [2, 5, 5]).toOption = some [2, 4, 4] := by decide +kernel
+example : (dcd exactRoot 50 [5, 5, 2]).toOption = some [5, 5, 2] := by decide +kernel
+example : (dcd exactRoot 64 [4, 5, 6]).toOption = some [4, 4, 4] := by decide +kernel
+example : (dcd exactRoot 7 [11, 11]).toOption = some [3, 2] := by decide +kernel
+example : (dcd exactRoot 16 [11, 11]).toOption = some [4, 4] := by decide +kernel
+example : exactRoot 3 64 1 = (4, 4) ∧ exactRoot 2 50 2 = (5, 5) ∧ exactRoot 2 7 1 = (2, 3) := by decide +kernel
+
+/-- CartGrid([4,3]) with 2×2 boxes: cells (½,½), (5/2,½), (7/2,5/2) land in boxes 0, 2, 3 (C order, x slowest);
+    a centre exactly on the upper node extent is in no box: the code's assertion fires -/
+example : (pcoord [⟨0, 4, 2⟩, ⟨0, 3, 2⟩] [[1/2, 1/2], [5/2, 1/2], [7/2, 5/2]]).toOption = some [0, 2, 3] := by
+  decide +kernel
+example : (pcoord [⟨0, 4, 2⟩] [[4]]).toOption = none := by decide +kernel
+example : AllOk [⟨0, 4, 2⟩, ⟨0, 3, 2⟩] [5/2, 1/2] := by
+  refine ⟨⟨by decide, by decide +kernel, by decide +kernel⟩, ⟨by decide, by decide +kernel, by decide +kernel⟩, trivial⟩
 
 end PorepyVerif.C22
